@@ -453,7 +453,19 @@ def drive(rc, run, cfg, bodies, counter, st, steps, ctxs):
             return [InStep()]
         return [Nothing()]
 
-    def resume(g, how, creating, hop):
+    class DriverTrouble(Exception):
+        """The driver's own, unrelated exception: it resumes generators while handling it."""
+
+    def resume(g, how, creating, hop, handling=False):
+        if handling:
+            # a driver that steps its generators from inside an except block (error-handling code, a
+            # finally clause while an exception propagates): that exception is none of the generator's business
+            rc.probe("resumed_while_driver_handles_an_exception")
+            try:
+                raise DriverTrouble("the driver's own problem")
+            except DriverTrouble:
+                return resume(g, how, creating, hop)
+
         """The resumption itself; with ``hop`` it runs inside a *copy* of the driver's contextvars context
         (a driver that resumes from another Context: executor thread, another task, copy_context().run)."""
         def core():
@@ -484,7 +496,7 @@ def drive(rc, run, cfg, bodies, counter, st, steps, ctxs):
             return contextvars.copy_context().run(core)
         return core()
 
-    def do_step(g, how, ckind, creating=False, hop=False):
+    def do_step(g, how, ckind, creating=False, hop=False, handling=False):
         cms = contexts(ckind)
         ctxs.add((g.gid, ckind if (root is not None or ckind == 3) else 0))
         for cm in cms:
@@ -493,7 +505,7 @@ def drive(rc, run, cfg, bodies, counter, st, steps, ctxs):
         try:
             run.check("driver before step")
             try:
-                out = resume(g, how, creating, hop)
+                out = resume(g, how, creating, hop, handling)
             finally:
                 if run.active:
                     raise run.viol("harness_active", "model bookkeeping: a body is marked running in the driver")
@@ -515,6 +527,9 @@ def drive(rc, run, cfg, bodies, counter, st, steps, ctxs):
         except Violation:
             raise
         except Exception as ex:  # noqa
+            if isinstance(ex, DriverTrouble):
+                raise run.viol("sent_value", "the exception the driver was handling while it resumed generator %d "
+                               "(%s) was raised inside the generator" % (g.gid, how))
             if ex is getattr(g, "sent", None):
                 raise run.viol("sent_value", "the value sent into generator %d (%r) was raised in it instead" % (g.gid, ex))
             raise run.viol(("generator_raised", {"exc": type(ex).__name__}),
@@ -545,7 +560,7 @@ def drive(rc, run, cfg, bodies, counter, st, steps, ctxs):
     order = list(gens)
     for g in order:
         ck = st.choose(2, "create-ctx")      # long-lived contexts only: none or the root
-        esc = do_step(g, "next", ck, creating=True)
+        esc = do_step(g, "next", ck, creating=True, handling=st.choose(5, "create-handling") == 4)
         steps.append((g.gid, "create", ck))
         n_steps += 1
     while n_steps < cfg["max_steps"]:
@@ -557,7 +572,8 @@ def drive(rc, run, cfg, bodies, counter, st, steps, ctxs):
         ck = st.choose(4, "step-ctx")
         n_ev = len(g.events)
         hop = st.choose(3, "hop") == 2
-        esc = do_step(g, how, ck, hop=hop)
+        handling = st.choose(5, "handling") == 4
+        esc = do_step(g, how, ck, hop=hop, handling=handling)
         steps.append((g.gid, how, ck, int(hop)))
         if how == "throw" and esc is not None and esc is not g.thrown and "boom from generator" not in str(esc):
             raise run.viol("thrown_value", "throw(): %r came back out instead of %r" % (esc, g.thrown))
